@@ -29,13 +29,19 @@ Proof. exact composite_increments_lem. Qed.
 Print Assumptions composite_generators_increment_depth.
 
 (* every run of the recursion scheme: the nesting is bounded by a function of the configured depth *)
-Theorem height_bounded : forall max d t, Gen max d t -> height t <= S (2 * max + 1 - d).
+Theorem height_bounded : forall max A a d t,
+    Gen max A a d t -> a <= A -> height t <= a + 1 + (A + 1) * (2 * max + 1 - d).
 Proof. exact height_bounded_lem. Qed.
 Print Assumptions height_bounded.
 
-Theorem nesting_bounded : forall max t, Gen max 1 t -> height t <= 2 * max + 1.
+(* A = the deepest array nesting of a type of the program: array expressions do not increment the depth *)
+Theorem nesting_bounded : forall max A t, Gen max A A 1 t -> height t <= (A + 1) * (2 * max + 1).
 Proof. exact nesting_bounded_lem. Qed.
 Print Assumptions nesting_bounded.
+
+Theorem nesting_bounded_without_arrays : forall max t, Gen max 0 0 1 t -> height t <= 2 * max + 1.
+Proof. exact nesting_bounded_no_arrays_lem. Qed.
+Print Assumptions nesting_bounded_without_arrays.
 
 (* ---- the other counters that bound the pipeline's work (IR/Work.v) ---- *)
 
